@@ -106,4 +106,41 @@ theorem tableLookup_eq {K : Type} (lt : K → K → Bool) (blocks : List (List (
   unfold Table.tableLookup Table.indexLowerBound Table.dataLowerBound
   simp only [indexLowerIdx_eq, dataLowerIdx_eq]
 
+
+/-! ### table.Build: cutting the entries into data blocks -/
+
+theorem build_loop {K : Type} (sz : Table.Entry K → Nat) (bs : Nat) (es : List (Table.Entry K)) :
+    ∀ (blocks : List (List (Table.Entry K))) (n : Nat) (data : List (Table.Entry K)),
+    List.foldr (fun (entry : Table.Entry K) (kont1 : List (List (Table.Entry K)) → Nat → List (Table.Entry K) → List (List (Table.Entry K))) =>
+        fun dataBlocks currSize data =>
+        if decide (bs < currSize) = true then kont1 (dataBlocks ++ [data]) (0 + sz entry) ([] ++ [entry])
+        else kont1 dataBlocks (currSize + sz entry) (data ++ [entry]))
+      (fun dataBlocks _ data => if decide (0 < data.length) = true then dataBlocks ++ [data] else dataBlocks) es blocks n data
+    = blocks ++ Table.split sz bs es data.reverse n := by
+  induction es with
+  | nil =>
+    intro blocks n data
+    simp only [List.foldr_nil, Table.split, List.isEmpty_reverse, List.reverse_reverse]
+    cases data with
+    | nil => simp
+    | cons a d => simp
+  | cons e es ih =>
+    intro blocks n data
+    simp only [List.foldr_cons, Table.split, gt_iff_lt]
+    by_cases h : bs < n
+    · simp only [h, decide_true, ↓reduceIte, List.reverse_reverse]
+      rw [ih]
+      simp
+    · simp only [h, decide_false, Bool.false_eq_true, ↓reduceIte]
+      rw [ih]
+      simp
+
+/-- the block-cutting loop of `table.Build`, translated from the Go source, is the model's `buildBlocks` -/
+theorem buildBlocks_eq {K : Type} (sz : Table.Entry K → Nat) (bs : Nat) (es : List (Table.Entry K)) :
+    GenTable.buildBlocks sz bs es = Table.buildBlocks sz bs es := by
+  unfold GenTable.buildBlocks Table.buildBlocks
+  dsimp only
+  have := build_loop sz bs es [] 0 []
+  simpa using this
+
 end TableTie
